@@ -619,7 +619,9 @@ class Block(composites.Composite):
         """
         # this caching requires that you clear the cache every time you adjust anything
         # including temperature and dimensions.
-        area = self._getCached("area")
+        # cold and hot areas differ, so they are cached separately
+        cacheKey = "areaCold" if cold else "area"
+        area = self._getCached(cacheKey)
         if area:
             return area
 
@@ -633,7 +635,7 @@ class Block(composites.Composite):
         # clipped by symmetry lines
         area = fullArea / self.getSymmetryFactor()
 
-        self._setCache("area", area)
+        self._setCache(cacheKey, area)
         return area
 
     def getVolume(self):
